@@ -139,7 +139,7 @@ def run_once_e3(cfg: E3Config, chooser: Chooser, *, world_hook=None, around_run=
             return
         # what labtech can know: completions yielded to the coordinator so far
         yielded = {ev[1] for ev in backend_events if ev[0] == 'yield'}
-        occupying = [c for c in w.children
+        occupying = [c for c in w.children if not getattr(c, 'foreign', False)
                      if c.state == 'running' and not c.result_consumed
                      or (c.state != 'running' and not c.result_consumed and not w.infinite_wait
                          and c.death_observed_round in (None, w.round))]
@@ -178,7 +178,7 @@ def run_once_e3(cfg: E3Config, chooser: Chooser, *, world_hook=None, around_run=
         me = key_to_node.get(cache_key)
         yielded = {ev[1] for ev in backend_events if ev[0] == 'yield'}
         started = {c.task_key for c in w.children}
-        occupying = [c for c in w.children if c.state == 'running' and not c.result_consumed]
+        occupying = [c for c in w.children if not getattr(c, 'foreign', False) and c.state == 'running' and not c.result_consumed]
         waiting = []
         for i in sorted(ref.needed):
             k = (spec.types[i], spec.labels[i])
@@ -238,6 +238,7 @@ def run_once_e3(cfg: E3Config, chooser: Chooser, *, world_hook=None, around_run=
                 del backend_events[:]
                 del gt[:]
                 measured[0] = True
+                world.disown_children()
                 world.record('prelude-done')
                 U.WORLD.reset(epoch=1, faults=[spec.labels[i] for i in base.faults], fault_exc=base.fault_exc,
                               emit={spec.labels[i]: pat for i, pat in base.emit})
@@ -250,6 +251,7 @@ def run_once_e3(cfg: E3Config, chooser: Chooser, *, world_hook=None, around_run=
                 e2.lab_history(lab, base, backend_events)
                 del gt[:]
                 measured[0] = True
+                world.disown_children()
                 world.record('history-done', base.history)
                 U.WORLD.reset(epoch=1, faults=[spec.labels[i] for i in base.faults], fault_exc=base.fault_exc,
                               emit={spec.labels[i]: pat for i, pat in base.emit})
